@@ -182,22 +182,29 @@ class MetricTranslator:
         lenv = dict(env)
         lenv[ivar] = ("index", None)
 
-        def body(stmts):
-            if len(stmts) == 1 and isinstance(stmts[0], ast.If):
-                st = stmts[0]
-                cond = self._cond(st.test, lenv, ops, obl, fi, depth)
-                a = body(st.body)
-                b = body(st.orelse)
-                return sp.Piecewise((a, cond), (b, True))
-            if len(stmts) == 1 and isinstance(stmts[0], ast.Assign):
-                t = stmts[0].targets[0]
-                if isinstance(t, ast.Subscript) and isinstance(t.value, ast.Name) and t.value.id == target \
-                        and isinstance(t.slice, ast.Name) and t.slice.id == ivar:
-                    k, e = self._expr(stmts[0].value, lenv, ops, obl, fi, depth)
-                    return e
-            raise AnalysisError(f"{fi.name}: element loop body outside the whitelist")
+        def body(stmts, benv):
+            benv = dict(benv)
+            for k, st in enumerate(stmts):
+                last = k == len(stmts) - 1
+                if isinstance(st, ast.Assign) and len(st.targets) == 1 and isinstance(st.targets[0], ast.Name):
+                    # a local of the element loop (hoisted sub-expression)
+                    benv[st.targets[0].id] = self._expr(st.value, benv, ops, obl, fi, depth)
+                    continue
+                if last and isinstance(st, ast.If):
+                    cond = self._cond(st.test, benv, ops, obl, fi, depth)
+                    a = body(st.body, benv)
+                    b = body(st.orelse, benv)
+                    return sp.Piecewise((a, cond), (b, True))
+                if last and isinstance(st, ast.Assign):
+                    t = st.targets[0]
+                    if isinstance(t, ast.Subscript) and isinstance(t.value, ast.Name) and t.value.id == target \
+                            and isinstance(t.slice, ast.Name) and t.slice.id == ivar:
+                        k2, e = self._expr(st.value, benv, ops, obl, fi, depth)
+                        return e
+                raise AnalysisError(f"{fi.name}: element loop body outside the whitelist")
+            raise AnalysisError(f"{fi.name}: element loop body does not assign the element")
 
-        return body(loop.body)
+        return body(loop.body, lenv)
 
     def _cond(self, node, env, ops, obl, fi, depth):
         # `mask[i] is True` / `mask[i]` / comparisons
